@@ -194,7 +194,12 @@ theorem estep_inv {s s' : ErrState} {t : Nat} {st : ErrStep} (hinv : EInv s) (h 
   | read =>
     simp only [estep] at h
     split at h
-    · cases h; exact hinv
+    · cases h
+      refine ⟨hinv.nodup, hinv.ptrOk, hinv.ptrLe, ?_⟩
+      intro ob hob
+      rcases List.mem_append.mp hob with hob | hob
+      · exact hinv.obsOk ob hob
+      · simp only [List.mem_singleton] at hob; subst hob; rfl
     · rename_i p hp
       split at h
       · cases h
@@ -338,7 +343,7 @@ theorem estep_small {T : List Nat} (hT : T.length < staleThreshold) {s : ErrStat
   | read =>
     simp only [estep]
     split
-    · exact ⟨s, rfl, h⟩
+    · exact ⟨_, rfl, h.gen0, h.size, h.used, h.nodup, h.sub, h.ptr0⟩
     · rename_i p hp
       have hg : p.gen = s.tab.gen := by rw [h.ptr0 t p hp, h.gen0]
       simp only [hg, ne_eq, not_true_eq_false, if_false]
